@@ -1,5 +1,7 @@
 """C03 - both ends agree on everything, within both policies (decision code of
 the hello processing; C20.2 covers the suite filters)."""
+import json
+
 from lib.framework import obligation
 from symx.core import (SymInt, SymBool, SymBytes, AND, OR, NOT, IFF, IMPLIES,
                        seq_eq, assume, is_concrete_mode, ite, PathAbort,
@@ -385,8 +387,14 @@ def _shapes_c03_6(tier):
     # HelloRetryRequest: the client's only share is for a group the server
     # does not allow
     for auth in ("psk_dhe", "cert", "cert+client"):
-        for suite in ("aes128", "aes256"):
+        for suite in (("aes128", "aes256") if tier == "quick"
+                      else ("aes128", "aes256", "chacha")):
             out.append(dict(auth=auth, suite=suite, hrr=True))
+    if tier != "quick":
+        # other groups for the (modelled) key share
+        for group in ("secp256r1", "secp384r1", "secp521r1", "x448"):
+            for auth in ("psk_dhe", "cert+client"):
+                out.append(dict(auth=auth, suite="aes128", group=group))
     return out
 
 
@@ -411,6 +419,10 @@ def c03_6(I, shape):
     record is sealed under the key and sequence number of its epoch;
     exporters and application data agree"""
     sc = P.Scenario13(I, PAIR_RND, shape["auth"], shape["suite"])
+    if shape.get("group"):
+        for st in (sc.cset, sc.sset):
+            st.keyShares = [shape["group"]]
+            st.eccCurves = [shape["group"]]
     if shape.get("hrr"):
         sc.cset.keyShares = ["x25519"]
         sc.cset.eccCurves = ["x25519", "secp256r1"]
@@ -582,7 +594,45 @@ def _shapes_c03_7(tier):
         add(v, "dhe_rsa", "3des", "sha", False, True)
     add((3, 1), "rsa", "rc4", "sha")
     add((3, 2), "rsa", "rc4", "md5", False, False)
+    if tier != "quick":
+        seen = set(json.dumps(x, sort_keys=True) for x in out)
+        for v in ((3, 1), (3, 2), (3, 3)):
+            for kxn in ("rsa", "dhe_rsa", "ecdhe_rsa", "ecdhe_ecdsa"):
+                for cipher, macs in (("aes128gcm", ("sha",)),
+                                     ("aes256gcm", ("sha",)),
+                                     ("chacha20-poly1305", ("sha",)),
+                                     ("aes128", ("sha", "sha256")),
+                                     ("aes256", ("sha", "sha256", "sha384")),
+                                     ("3des", ("sha",)),
+                                     ("rc4", ("sha", "md5"))):
+                    for mac in macs:
+                        if not _suite_exists(v, kxn, cipher, mac):
+                            continue
+                        for ems, etm in ((True, True), (False, False)):
+                            d = dict(version=list(v), kx=kxn, cipher=cipher,
+                                     mac=mac, ems=ems, etm=etm)
+                            k = json.dumps(d, sort_keys=True)
+                            if k not in seen:
+                                seen.add(k)
+                                out.append(d)
     return out
+
+
+def _suite_exists(version, kxn, cipher, mac):
+    """is there a suite for this combination that the version can use?
+    (settings-level filter of the library - the obligation then checks the
+    negotiated suite against its IETF name)"""
+    st = P.settings12(version, kxn, cipher, mac)
+    try:
+        st = st.validate()
+    except ValueError:
+        return False
+    cands = []
+    for getter in ("getCertSuites", "getDheCertSuites", "getEcdheCertSuites",
+                   "getEcdsaSuites"):
+        cands += getattr(CipherSuite, getter)(st, version)
+    cands = CipherSuite.filterForVersion(cands, version, version)
+    return bool(cands)
 
 
 def _has_ext(msg, t):
